@@ -49,7 +49,7 @@ Proof.
       destruct s as [x e0|xs es|c a b|e0| | |]; cbn [refuses_s] in H.
       * (* SAssign *) apply orb_true_iff in H. destruct H as [H|H].
         -- rewrite (proj1 (unsupported_all S G) e0 H sigma). discriminate.
-        -- destruct (texpr ef S G sigma e0); [apply IH; exact H | discriminate].
+        -- destruct (texpr ef S G sigma e0); [apply IH; exact H | rewrite assign_none_ef; discriminate].
       * (* STuple *) unfold ttuple. change (f_tuple ef) with TupSim. cbv beta iota.
         apply orb_true_iff in H. destruct H as [H|H].
         -- rewrite (proj2 (proj2 (proj2 (unsupported_all S G))) es H sigma). discriminate.
@@ -146,7 +146,11 @@ Lemma tbody_sh_S : forall fs S G bi be n body s rest sigma,
   | SAssign x e =>
       match texpr fs S G sigma e with
       | Some v => tbody_sh fs S G bi be n body rest ((x, v) :: sigma)
-      | None => (TRefused, sigma)
+      | None =>
+          match assign_none fs S G sigma x e with
+          | Some sigma' => tbody_sh fs S G bi be n body rest sigma'
+          | None => (TRefused, sigma)
+          end
       end
   | STuple xs es =>
       match ttuple fs S G sigma xs es with
@@ -173,7 +177,8 @@ Proof.
       destruct (f_fallback fs); try discriminate.
       destruct (last_assign body None) as [x|]; [destruct (assoc x sigma)|]; discriminate.
     + rewrite tbody_sh_S. destruct s as [x e|xs es|c a b|e| | |]; simpl in H.
-      * destruct (texpr fs S G sigma e); [apply IH; lia | discriminate].
+      * destruct (texpr fs S G sigma e); [apply IH; lia |].
+        destruct (assign_none fs S G sigma x e); [apply IH; lia | discriminate].
       * destruct (ttuple fs S G sigma xs es); [apply IH; lia | discriminate].
       * cbv zeta. cbn [fst].
         match goal with
@@ -203,7 +208,8 @@ Proof.
     + reflexivity.
     + rewrite tbody_sh_S, tbody_SCons.
       destruct s as [x e0|xs es|c a b|e0| | |].
-      * destruct (texpr fs S G sigma e0); [apply IH | reflexivity].
+      * destruct (texpr fs S G sigma e0); [apply IH |].
+        destruct (assign_none fs S G sigma x e0); [apply IH | reflexivity].
       * destruct (ttuple fs S G sigma xs es); [apply IH | reflexivity].
       * rewrite Hcf. cbv beta iota zeta. cbn [on_ctx fst snd].
         rewrite !IH. unfold join_if. reflexivity.
@@ -250,3 +256,75 @@ Lemma translate_history_free : forall fs, fs = expected_facts ->
   forall first first' now ms i margs,
     translate fs first now ms i margs = translate fs first' now ms i margs.
 Proof. intros fs Hfs. subst fs. reflexivity. Qed.
+
+(** * An assignment without an expression refuses the body (whatever made the right-hand side fail) *)
+
+Lemma assign_without_expression_refuses : forall fs, fs = expected_facts ->
+  forall S G fuel body rest sigma,
+    (forall x e, texpr fs S G sigma e = None ->
+       tbody fs S G (Datatypes.S fuel) body (SCons (SAssign x e) rest) sigma = TRefused) /\
+    (forall xs es, ttuple fs S G sigma xs es = None ->
+       tbody fs S G (Datatypes.S fuel) body (SCons (STuple xs es) rest) sigma = TRefused).
+Proof.
+  intros fs Hfs S G fuel body rest sigma. subst fs. split.
+  - intros x e H. rewrite tbody_SCons, H, assign_none_ef. reflexivity.
+  - intros xs es H. rewrite tbody_SCons, H. reflexivity.
+Qed.
+
+(** * Keyword arguments written in parameter order mean the positional call *)
+
+Lemma find_slot_seq : forall n k j (vs : list Q),
+  length vs = n -> j < n -> find_slot (k + j) (seq k n) vs = nth_error vs j.
+Proof.
+  induction n as [|n IH]; intros k j vs Hl Hj.
+  - lia.
+  - destruct vs as [|v vs']; [discriminate Hl|]. cbn [seq find_slot].
+    destruct j as [|j'].
+    + rewrite Nat.add_0_r, Nat.eqb_refl. reflexivity.
+    + destruct (Nat.eqb k (k + Datatypes.S j')) eqn:E; [apply Nat.eqb_eq in E; lia|].
+      replace (k + Datatypes.S j') with (Datatypes.S k + j') by lia.
+      cbn [nth_error]. apply IH; [simpl in Hl; lia | lia].
+Qed.
+
+Lemma arrange_from_seq : forall (vs : list Q) m j0,
+  j0 + m = length vs ->
+  arrange_from (seq j0 m) (seq 0 (length vs)) vs = Some (skipn j0 vs).
+Proof.
+  intros vs. induction m as [|m IH]; intros j0 H.
+  - cbn [seq arrange_from]. rewrite skipn_all2 by lia. reflexivity.
+  - cbn [seq arrange_from].
+    pose proof (find_slot_seq (length vs) 0 j0 vs eq_refl ltac:(lia)) as Hf.
+    cbn [Nat.add] in Hf. rewrite Hf. clear Hf.
+    rewrite IH by lia.
+    destruct (nth_error vs j0) as [v|] eqn:E.
+    + f_equal. clear IH H. revert j0 E. induction vs as [|a vs IHv]; intros j0 E.
+      * destruct j0; discriminate E.
+      * destruct j0 as [|j0]; cbn [nth_error] in E.
+        -- inversion E; subst. reflexivity.
+        -- cbn [skipn]. apply IHv. exact E.
+    + apply nth_error_None in E. lia.
+Qed.
+
+Lemma arrange_identity : forall vs : list Q, arrange (seq 0 (length vs)) vs = Some vs.
+Proof.
+  intros vs. unfold arrange. rewrite seq_length, Nat.eqb_refl.
+  rewrite (arrange_from_seq vs (length vs) 0) by lia. reflexivity.
+Qed.
+
+Lemma evals_length : forall F G rho es vs, evals F G rho es = Some vs -> length vs = elen es.
+Proof.
+  intros F G rho. induction es as [|e r IH]; intros vs H.
+  - rewrite evals_ENil in H. inversion H. reflexivity.
+  - rewrite evals_ECons in H.
+    destruct (eval F G rho e); [|discriminate H].
+    destruct (evals F G rho r) as [vs'|]; [|discriminate H].
+    inversion H; subst. cbn [length elen]. rewrite (IH vs' eq_refl). reflexivity.
+Qed.
+
+Lemma keywords_in_parameter_order : forall F G rho f args,
+  eval F G rho (ECallKw f (seq 0 (elen args)) args) = eval F G rho (ECall f args).
+Proof.
+  intros F G rho f args. rewrite eval_ECallKw, eval_ECall.
+  destruct (evals F G rho args) as [vs|] eqn:E; [|reflexivity].
+  rewrite <- (evals_length _ _ _ _ _ E), arrange_identity. reflexivity.
+Qed.
